@@ -111,7 +111,7 @@ def modifiesPkColumn : DB → List Stmt → Bool
 
 /-- identifiers the postgres parser prints back with quotes (reserved words); in ALTER statements the reader uses the
     printed form, so such a table or column becomes a second, quoted one (F24) -/
-def pgQuoted (n : String) : Bool := ["select", "order", "group", "desc", "index", "key", "user", "table", "column"].contains n
+def pgQuoted (n : String) : Bool := ["select", "order", "group", "desc", "index", "user", "table", "column"].contains n
 
 /-- the fragment of the vocabulary the postgres reader glue understands: plain CREATE TABLE, ADD COLUMN without
     position, DROP COLUMN, and CREATE INDEX directly after a statement on the same table (the reader attaches an index
